@@ -2,7 +2,7 @@
 #include "../../engine/pbt/gen.h"
 using namespace vf;
 namespace {
-namespace c17 { enum K { WRITE = 0, SEEK, TELL, SIZE, READ_BUF, READ_ALL, READ_STR, REOPEN }; }
+namespace c17 { enum K { WRITE = 0, SEEK, TELL, SIZE, READ_BUF, READ_ALL, READ_STR, REOPEN, W_SEEK, W_REOPEN }; }
 namespace c18 { enum K { MKDIR = 0, MKFILE, STR_LAW, STR_ANY, V_PUSH_CTOR, V_PUSH_DEFAULT, V_SET, V_VISIT, V_RESTORE, V_POP }; }
 
 // byte strings biased to NUL, 0xFF, CR, LF, 0x1A (CRLF pairs arise naturally)
@@ -15,7 +15,7 @@ rc::Gen<std::string> content(int maxLen) {
 Register r17("C17", [](Tier t) {
     using namespace c17;
     auto ops = genOps({{WRITE, 8, 3, 8191, 3}, {SEEK, 6, 2, 8191, 7}, {SIZE, 6, 0, 0, 0}, {TELL, 2, 0, 0, 0}, {READ_BUF, 6, 1, 4, 11}, {READ_ALL, 3, 0, 0, 0}, {READ_STR, 3, 0, 0, 0},
-                       {REOPEN, 1, 0, 0, 0}}, 24);
+                       {REOPEN, 1, 0, 0, 0}, {W_SEEK, 3, 0, 8191, 0}, {W_REOPEN, 1, 0, 3, 0}}, 28);
     // h: write mode, pre-existing content selector, read mode, repeat factor (x256 KiB), error case selector (1: missing, 2: directory), flush
     int bigMax = t == THOROUGH ? 128 : 16;
     auto normal = genHeader({{0, 3}, {0, 40}, {0, 1}, {0, 0}, {0, 0}, {0, 1}});
